@@ -236,3 +236,14 @@ package linkedlist
 //@     modifies llb.head, llb.tail, llb.size, llb.bytes, node.next, node.buf, capmem(p)
 //@     invariant lwf(llb) && 0 <= n && n < len(p) && (b == nil ==> llb.size == 0 && n + llb.bytes == old(llb.bytes))
 //@     invariant b != nil ==> (lnotin(llb, b) && allocated(b) && b.next == nil && len(b.buf) > 0 && n + len(b.buf) + llb.bytes == old(llb.bytes))
+
+// the list is exactly as it was at entry (used by the mixed buffer)
+//@ define lunchanged(l) = lsame(l) && heap(node.next) == old(heap(node.next)) && heap(node.buf) == old(heap(node.buf))
+// Discard's postcondition for d dropped bytes, as one predicate (used by the mixed buffer)
+//@ define ldropped(l, d) = l.bytes == old(l.bytes) - d && 0 <= dj(l) && dj(l) <= old(l.size) && olsm(l, dj(l)) <= d
+//@     && (forall k int :: 0 <= k && k < l.size ==> ln(l, k) == oln(l, dj(l) + k))
+//@     && (forall k int, x *node :: (1 <= k && k < l.size && x == lnn(l, k)) ==> x.buf == old(x.buf))
+//@     && (forall x *node :: (l.size > 0 && x == l.head) ==> (0 <= d - olsm(l, dj(l)) && d - olsm(l, dj(l)) < len(old(x.buf)) && x.buf == old(x.buf)[d - olsm(l, dj(l)):]))
+//@     && (l.size == 0 ==> d == olsm(l, dj(l)))
+// the chunk appended behind the old_size chunks the list had at entry holds exactly the bytes p (used by the mixed buffer)
+//@ define lastis(l, p) = l.size == old(l.size) + 1 && bytes_eq(lnn(l, old(l.size)).buf, p)
